@@ -3,6 +3,7 @@
 import json
 from typing import Iterable, Optional, Union
 
+from .._string_utils import parse_block_string
 from .._utils import classdispatch
 from . import ast as _ast
 
@@ -504,7 +505,12 @@ class ASTPrinter:
         if desc is None or not self.include_descriptions:
             return formatted
 
-        desc_str = _block_string(desc.value, self.indent, True)
+        if parse_block_string(desc.value) != desc.value or "\r" in desc.value:
+            # Not all strings can be written as a block string (leading or
+            # trailing blank lines, carriage returns, ...).
+            desc_str = json.dumps(desc.value, ensure_ascii=False)
+        else:
+            desc_str = _block_string(desc.value, self.indent, True)
         return _join([desc_str, formatted], "\n")
 
 
